@@ -44,14 +44,27 @@ def coord(kind, n, salt=0):
     raise ValueError(kind)
 
 
-def build(B, spec, name="x"):
+def coord_new(kind, n):
+    """labels for unseen data: disjoint from coord(kind, ...)"""
+    if kind in ("int", "int-desc"):
+        return list(range(500, 500 + n))
+    if kind == "float-unsorted":
+        return [102.5, 99.0, 107.25, 100.5][:n]
+    if kind == "str":
+        return ["q", "p", "s", "r"][:n]
+    if kind == "datetime":
+        return list(pd.date_range("2010-06-01", periods=n, freq="D"))
+    raise ValueError(kind)
+
+
+def build(B, spec, name="x", relabel=()):
     """spec: {'dims': [(name, size, kind)], 'order': optional list of names} -> DataArray of distinct symbols"""
     dims = spec["dims"]
     order = spec.get("order") or [d[0] for d in dims]
     byname = {d[0]: d for d in dims}
     shape = tuple(byname[d][1] for d in order)
     A = B.array(shape, name)
-    coords = {d: coord(byname[d][2], byname[d][1], sum(map(ord, d)) % 5) for d in order}
+    coords = {d: (coord_new(byname[d][2], byname[d][1]) if d in relabel else coord(byname[d][2], byname[d][1], sum(map(ord, d)) % 5)) for d in order}
     da = xr.DataArray(A, dims=order, coords=coords, name="v_" + name)
     for extra in spec.get("extra_coords", []):
         d0 = extra
@@ -61,14 +74,14 @@ def build(B, spec, name="x"):
     return da
 
 
-def make(B, L):
+def make(B, L, name="x", relabel=()):
     c = L["container"]
     if c == "DataArray":
-        return build(B, L["spec"])
+        return build(B, L["spec"], name=name, relabel=relabel)
     if c == "Dataset":
-        return xr.Dataset({v: build(B, s, name=f"x{v}") for v, s in L["vars"].items()})
+        return xr.Dataset({v: build(B, s, name=f"{name}{v}", relabel=relabel) for v, s in L["vars"].items()})
     if c == "list":
-        return [build(B, s, name=f"x{i}") for i, s in enumerate(L["items"])]
+        return [build(B, s, name=f"{name}{i}", relabel=relabel) for i, s in enumerate(L["items"])]
     raise ValueError(c)
 
 
@@ -164,7 +177,13 @@ def _same_structure(B, what, got, exp, extra_dims=(), drop_dims=()):
         B.check(f"{what}: index type of {d}", isinstance(ge, pd.MultiIndex) == isinstance(ee, pd.MultiIndex), f"{type(ge).__name__} vs {type(ee).__name__}")
 
 
-def h_model(B, L=None, flags=None, sample_name="sample", feature_name="feature", k=2):
+def _sample_labels(obj_, sdims):
+    first = _items(obj_)[0]
+    first = first[list(first.data_vars)[0]] if isinstance(first, xr.Dataset) else first
+    return {d: set(first.indexes[d]) for d in sdims}
+
+
+def h_model(B, L=None, flags=None, sample_name="sample", feature_name="feature", k=2, unseen=False):
     flags = dict(flags or {})
     X = make(B, L)
     sdims = tuple(L["sample_dims"])
@@ -172,6 +191,23 @@ def h_model(B, L=None, flags=None, sample_name="sample", feature_name="feature",
     r = B.completes("fit runs", lambda: model.fit(X, sdims if len(sdims) > 1 else sdims[0]))
     if r is None:
         return
+    if unseen:
+        # 'fit vs. unseen reference': data with other sample labels goes through the fitted chain; its scores carry ITS labels,
+        # and everything derived from the fitted data afterwards still carries the FITTED labels
+        stack = L.get("spec", {}).get("stack", {}) if L["container"] == "DataArray" else {}
+        rel = set(sdims)
+        for new_, parts in stack.items():
+            if new_ in sdims:
+                rel |= set(parts)
+        Y = make(B, L, name="y", relabel=rel)
+        B.covers("EOF.transform (unseen data)")
+        ty = B.completes("transform(unseen data) runs", lambda: model.transform(Y))
+        if ty is not None:
+            wantY = _sample_labels(Y, sdims)
+            B.check("transform(unseen): dims == sample dims + mode", set(ty.dims) == set(sdims) | {"mode"}, f"got {ty.dims}")
+            for d in sdims:
+                if d in ty.dims:
+                    B.check(f"transform(unseen): labels of {d} are those of the new data", set(ty.indexes[d]) == wantY[d], f"{list(ty.indexes[d])[:5]}")
     B.covers("EOF.components", "EOF.scores", "EOF.inverse_transform")
     comps = B.completes("components() runs", lambda: model.components())
     if comps is not None:
@@ -252,6 +288,8 @@ def configs(tier):
         if "prod" in key:
             continue
         out.append({"key": f"model|{key}", "fn": "h_model", "params": {"L": lay}})
+        if key in ("DA|1s1f|str", "DA|2s1f", "DA|2s2f|order=lat,t2,lon,t1", "DA|multiindex-sample", "DA|multiindex-feature", "DS|2s", "DS|same-dims", "LIST|2 items"):
+            out.append({"key": f"model+unseen|{key}", "fn": "h_model", "params": {"L": lay, "unseen": True}})
     sel = ["DA|1s2f", "DS|same-dims", "LIST|2 items", "DA|2s2f|order=lat,t2,lon,t1"]
     for key in sel:
         lay = L[key]
